@@ -135,14 +135,17 @@ func buildCustomTable() (*customTable, error) {
 	}
 	known := map[string]bool{} // "Object.GoMember" of the table's fields
 	for obj, td := range schemaTab {
-		if td.Kind != "OBJECT" {
-			continue
+		if td.Kind != "OBJECT" || strings.HasPrefix(obj, "__") {
+			continue // introspection types have no ComplexityRoot member
 		}
 		of, ok := ct.typ.FieldByName(obj)
 		if !ok {
 			return nil, fmt.Errorf("ComplexityRoot has no member %s", obj)
 		}
 		for _, f := range td.Fields {
+			if strings.HasPrefix(f.Name, "__") {
+				continue // meta fields have no ComplexityRoot member
+			}
 			if canon(obj+"."+f.Name) != obj+"."+f.Name {
 				continue // configured through the member of the field it shares a Go field with
 			}
